@@ -121,6 +121,7 @@ async def run_scenario(aiocoap, sc):
         return m
 
     escaped = []
+    pushes = []           # (representation, matched by the token manager?, had the application's iteration ended?)
     answered = 0
 
     async def serve(rep, spec):
@@ -148,8 +149,10 @@ async def run_scenario(aiocoap, sc):
         consumer = loop.create_task(consume())
         await turn(4)
         for rep, spec in enumerate(sc["reps"][1:], start=1):
+            ended = consumer.done()
             try:
-                tman.process_response(block_response(first.token, rep, spec, 0, observe=1 + rep))
+                m = tman.process_response(block_response(first.token, rep, spec, 0, observe=1 + rep))
+                pushes.append((rep, bool(m), ended))
             except Exception as e:
                 escaped.append(type(e).__name__)
             await serve(rep, spec)
@@ -172,7 +175,8 @@ async def run_scenario(aiocoap, sc):
             escaped.append("shutdown:" + type(e).__name__)
         await turn(3)
         loop.set_exception_handler(old)
-    return {"seen": snapshot, "resp": resp, "escaped": escaped, "loop_errors": loop_errors, "pending": pending}
+    return {"seen": snapshot, "resp": resp, "escaped": escaped, "loop_errors": loop_errors, "pending": pending,
+            "pushes": pushes}
 
 
 def oracle(sc, res):
@@ -209,6 +213,12 @@ def oracle(sc, res):
         if rep < last_rep:
             return "notifications handed over out of order", "obs:order"
         last_rep = rep
+    # once the observation has ended for the application, later notifications on its token are rejected like unknown
+    # responses (the runner retires the token when the next one comes in: one straggler may still be matched)
+    late = [m for (_, m, ended) in res.get("pushes", []) if ended]
+    if sum(late) > 1 or (True in late[1:]):
+        return (f"the observation had ended for the application, but {sum(late)} of {len(late)} later notifications "
+                f"on its token were still matched (and would be acknowledged): {late}"), "obs:token-not-retired"
     # a notification whose transfer went through correctly must have been handed over if it is the last one
     good = [rep for rep, spec in enumerate(sc["reps"]) if spec[2] is None]
     if len(good) == len(sc["reps"]) and good[-1] > 0:        # (a misbehaving transfer may end the observation)
@@ -228,8 +238,15 @@ def scenarios(rng, n):
                     out.append({"reps": [[2, 5, None, 0], [nblocks, tail, mis, at]]})
                 if nblocks == 1 or mis is None:
                     out.append({"reps": [[1, 7, None, 0], [nblocks, tail, None, 0]]})
+    # the FIRST response's body fails to assemble, then the server goes on notifying
+    for mis in MIS[1:]:
+        for nb in (2, 3):
+            for at in range(1, nb):
+                out.append({"reps": [[nb, 5, mis, at], [1, 7, None, 0], [2, 9, None, 0], [1, 3, None, 0]]})
     for _ in range(n):
         reps = [[rng.randrange(1, 4), rng.choice([1, 5, BS - 1, BS]), None, 0]]
+        if rng.random() < 0.2 and reps[0][0] > 1:
+            reps[0][2], reps[0][3] = rng.choice(MIS[1:]), rng.randrange(1, reps[0][0])
         for _ in range(rng.randrange(1, 4)):
             nb = rng.randrange(1, 5)
             mis = rng.choice(MIS + [None, None])
